@@ -1929,6 +1929,353 @@ def probe_aliasing_dtype(ctx):
             ctx.fail(tag, f'{name}: aliasing/dtype probe raised {type(ex).__name__}: {ex}', dict(code=name, op='aliasing'))
 
 
+# ---------------------------------------------------------------------------
+# BUFFER REUSE ACROSS CALLS: a result must not be changed by a later call with a different input of the same size
+# ---------------------------------------------------------------------------
+def _norm_index(ix):
+    if isinstance(ix, (set, frozenset)):
+        return ('set', tuple(sorted(_norm_index(x) for x in ix)))
+    if isinstance(ix, (list, tuple)):
+        return (type(ix).__name__, tuple(_norm_index(x) for x in ix))
+    if isinstance(ix, (np.integer,)):
+        return int(ix)
+    return ix
+
+
+def br_snapshot(obj):
+    """a deep, comparable copy of a result: arrays/tensors as (dtype, shape, bytes), containers recursively, circuits as
+    their gate lists (kind, array, index)"""
+    import torch
+    if isinstance(obj, np.ndarray):
+        return ('nd', obj.dtype.str, obj.shape, np.ascontiguousarray(obj).tobytes())
+    if isinstance(obj, torch.Tensor):
+        t = obj.detach().cpu().numpy()
+        return ('tensor', str(obj.dtype), tuple(t.shape), np.ascontiguousarray(t).tobytes())
+    if isinstance(obj, dict):
+        return ('dict', tuple((repr(k), br_snapshot(v)) for k, v in sorted(obj.items(), key=lambda kv: repr(kv[0]))))
+    if isinstance(obj, (list, tuple)):
+        return (type(obj).__name__, tuple(br_snapshot(x) for x in obj))
+    if hasattr(obj, 'gate_index_list'):
+        return ('circuit', tuple((getattr(g, 'kind', None), br_snapshot(np.asarray(getattr(g, 'array', None))), _norm_index(ix)) for g, ix in obj.gate_index_list))
+    if isinstance(obj, (set, frozenset)):
+        return _norm_index(obj)
+    if isinstance(obj, (np.generic,)):
+        return ('scalar', obj.dtype.str, obj.tobytes())
+    if obj is None or isinstance(obj, (bool, int, float, complex, str, bytes)):
+        return obj
+    return ('repr', repr(obj))
+
+
+def br_leaves(obj, path='r'):
+    """(array leaves [(path, ndarray sharing memory with the leaf)], mutable containers [(path, object)])"""
+    import torch
+    arrs, conts = [], []
+
+    def walk(o, p):
+        if isinstance(o, np.ndarray):
+            arrs.append((p, o))
+        elif isinstance(o, torch.Tensor):
+            try:
+                arrs.append((p, o.detach().numpy()))
+            except Exception:
+                pass
+        elif isinstance(o, dict):
+            conts.append((p, o))
+            for k, v in o.items():
+                walk(v, f'{p}[{k!r}]')
+        elif isinstance(o, (list, tuple)):
+            if isinstance(o, list):
+                conts.append((p, o))
+            for i, v in enumerate(o):
+                walk(v, f'{p}[{i}]')
+        elif hasattr(o, 'gate_index_list'):
+            conts.append((p, o))
+            conts.append((p + '.gate_index_list', o.gate_index_list))
+            for i, (g, ix) in enumerate(o.gate_index_list):
+                a_ = getattr(g, 'array', None)
+                if isinstance(a_, np.ndarray):
+                    arrs.append((f'{p}.gate_index_list[{i}][0].array', a_))
+    walk(obj, path)
+    return arrs, conts
+
+
+_br_consts = None
+
+
+def br_is_const(arr):
+    """does the array live in a module-level constant of numqi.gate (X, Y, Z, H, …, pauli.s0…)?  Error lists and circuits refer
+    to these constants by design; sharing *them* between two results is not buffer reuse."""
+    global _br_consts
+    import numqi
+    if _br_consts is None:
+        cs = []
+        for holder in (numqi.gate, getattr(numqi.gate, 'pauli', None)):
+            if holder is None:
+                continue
+            for k in dir(holder):
+                try:
+                    v = getattr(holder, k)
+                except Exception:
+                    continue
+                if isinstance(v, np.ndarray):
+                    cs.append(v)
+        _br_consts = cs
+    return any(np.shares_memory(arr, c_) for c_ in _br_consts)
+
+
+def br_scribble(obj):
+    """mutate a result in place through what the caller holds: overwrite every array that is not a module constant, empty the
+    lists / dicts / circuits"""
+    arrs, conts = br_leaves(obj)
+    for _, a_ in arrs:
+        if a_.size and a_.flags.writeable and not br_is_const(a_):
+            try:
+                a_[...] = (a_ + 7) if a_.dtype.kind in 'iufc' else a_
+                if a_.dtype.kind in 'fc':
+                    a_.flat[0] = np.nan
+            except Exception:
+                pass
+    for _, o in reversed(conts):
+        try:
+            if isinstance(o, list):
+                del o[len(o) // 2:]
+            elif isinstance(o, dict):
+                for k in list(o)[:1]:
+                    del o[k]
+        except Exception:
+            pass
+
+
+def buffer_reuse_case(ctx, fn, descA, descB, fA, fB, holdsA=None):
+    """r1 = f(A); c1 = snapshot; r2 = f(B), B != A of the same size.  (i) r1 still equals c1 bit for bit, (ii) r1 is not r2 and
+    shares no memory / mutable container with r2 (module-level gate constants excepted), (iii) r1 still satisfies the property
+    for A.  Then f(A) -> scribble over the result -> f(B), f(A): both equal their first values.  Failing input: the history."""
+    key = f'{fn}:result-overwritten-by-next-call'
+    rp = dict(op='buffer-reuse', function=fn, history=[descA, descB])
+    try:
+        r1 = fA()
+        c1 = br_snapshot(r1)
+        r2 = fB()
+        c2 = br_snapshot(r2)
+        if c1 == c2:
+            ctx.note(f'buffer-reuse {fn}: {descA} and {descB} give identical results; pair not discriminating')
+        bad = None
+        if br_snapshot(r1) != c1:
+            bad = f'the result of {descA} changed when {descB} was evaluated'
+        if bad is None and r1 is r2 and not isinstance(r1, (int, float, complex, str, tuple, type(None))):
+            bad = f'{descA} and {descB} return the same object'
+        if bad is None:
+            a1, k1 = br_leaves(r1); a2, k2 = br_leaves(r2)
+            for p1, x in a1:
+                if x.size == 0 or br_is_const(x):
+                    continue
+                hit = next((p2 for p2, y in a2 if y.size and np.shares_memory(x, y)), None)
+                if hit is not None:
+                    bad = f'{p1} of {descA} shares memory with {hit.replace("r", "r2", 1)} of {descB}'; break
+            if bad is None:
+                ids2 = {id(o): p2 for p2, o in k2}
+                hit = next(((p1, ids2[id(o)]) for p1, o in k1 if id(o) in ids2), None)
+                if hit is not None:
+                    bad = f'{hit[0]} of {descA} is the same mutable object as {hit[1].replace("r", "r2", 1)} of {descB}'
+        if bad is None and holdsA is not None:
+            why = holdsA(r1)
+            if why:
+                bad = f'after {descB}, the result of {descA} no longer satisfies the property: {why}'
+        if bad is None:
+            # mutate-then-call-again: f(A) -> scribble -> f(B) -> f(A)
+            r = fA(); br_scribble(r)
+            rb = fB(); ra = fA()
+            if br_snapshot(rb) != c2:
+                bad = f'after {descA} was evaluated and its result modified in place by the caller, {descB} gives a different result'
+                rp = dict(rp, history=[descA, 'modify the result in place', descB])
+            elif br_snapshot(ra) != c1:
+                bad = f'after {descA} was evaluated and its result modified in place by the caller, {descA} gives a different result'
+                rp = dict(rp, history=[descA, 'modify the result in place', descB, descA])
+        if bad:
+            ctx.fail(key, f'{fn}: {bad}', dict(rp, observed=bad))
+        else:
+            ctx.probe_ok(('buffer-reuse', fn, descA, descB))
+    except Exception as ex:
+        ctx.fail(key, f'{fn}: history [{descA}, {descB}] raised {type(ex).__name__}: {ex}', dict(rp, observed=f'{type(ex).__name__}: {ex}'))
+
+
+BUFFER_REUSE_FUNCTIONS = []
+
+
+def probe_buffer_reuse(ctx):
+    """deterministic block (both tiers): every public function in scope that returns an array / tensor / list / dict / circuit,
+    on pairs of different inputs of the same size, numpy and torch, and interleaved calls on two stateful objects."""
+    import numqi, torch
+    codes = get_codes()
+    ok = lambda l: codes.get(l) is not None and 'error' not in codes[l]
+    covered = []
+
+    def case(fn, *a, **kw):
+        if fn not in covered:
+            covered.append(fn)
+        buffer_reuse_case(ctx, fn, *a, **kw)
+
+    def code_holds(c, check_kl=True):
+        return lambda r: (fresh_code_failures(c, r, check_kl, full=True) or [None])[0]
+
+    # generate_code* of different codes on the same number of qubits (and, as a size-independent pair, the neighbours in the list)
+    by_n = {}
+    for _, l in CODES:
+        if ok(l):
+            by_n.setdefault(codes[l]['n'], []).append(l)
+    pairs = [(a, b) for ls in by_n.values() for a in ls for b in ls if a != b and codes[a]['n'] <= 8]
+    pairs += [(a, b) for a, b in (('code523', 'code422'), ('code642', 'code523')) if ok(a) and ok(b)]
+    for a, b in pairs:
+        ca, cb = codes[a], codes[b]
+        case(f'numqi.qec.{ca["fname"]}', f'numqi.qec.{ca["fname"]}()', f'numqi.qec.{cb["fname"]}()',
+             get_generator(ca['fname']), get_generator(cb['fname']), code_holds(ca, ca['n'] <= 6))
+
+    def codewords(l, K=None):
+        c = codes[l]
+        return np.array(numqi.qec.generate_code_np(get_generator(c['fname'])()['encode'], K or c['K']), copy=True)
+
+    def cw_holds(l, K):
+        c = codes[l]
+        def f(r):
+            r = np.asarray(r)
+            if r.shape != (K, 2 ** c['n']):
+                return f'shape {r.shape}'
+            if np.abs(r.conj() @ r.T - np.eye(K)).max() > 1e-9:
+                return 'code words not orthonormal'
+            for s_ in c['listed'] or []:
+                if np.abs(pauli_apply(s_, r) - r).max() > 1e-9:
+                    return f'listed stabilizer {s_} does not fix the code words'
+            return None
+        return f
+
+    if ok('code422') and ok('code442'):
+        e422 = get_generator(codes['code422']['fname'])()['encode']
+        e442 = get_generator(codes['code442']['fname'])()['encode']
+        for (la, ea), (lb, eb) in ((('code422', e422), ('code442', e442)), (('code442', e442), ('code422', e422))):
+            case('numqi.qec.generate_code_np', f'generate_code_np({codes[la]["fname"]}()["encode"], 2)', f'generate_code_np({codes[lb]["fname"]}()["encode"], 2)',
+                 lambda ea=ea: numqi.qec.generate_code_np(ea, 2), lambda eb=eb: numqi.qec.generate_code_np(eb, 2), cw_holds(la, 2))
+        cwA, cwB = codewords('code422'), codewords('code442', 2)
+        errs4 = numqi.qec.make_error_list(4, 2)
+
+        def kl_holds(r):
+            M = np.asarray(r.detach().numpy() if isinstance(r, torch.Tensor) else r)
+            if M.shape != (len(errs4), 2, 2):
+                return f'shape {M.shape}'
+            D = np.abs(M - M[:, :1, :1] * np.eye(2)).max()
+            return None if D < 1e-9 else f'a Knill-Laflamme matrix of ((4,2,2)) is not scalar (deviation {D:.3g})'
+        case('numqi.qec.knill_laflamme_inner_product', 'knill_laflamme_inner_product(code words of ((4,2,2)), make_error_list(4,2))',
+             'knill_laflamme_inner_product(first 2 code words of ((4,4,2)), make_error_list(4,2))',
+             lambda: numqi.qec.knill_laflamme_inner_product(cwA, errs4), lambda: numqi.qec.knill_laflamme_inner_product(cwB, errs4), kl_holds)
+        tA, tB = torch.tensor(cwA), torch.tensor(cwB)
+        case('numqi.qec.knill_laflamme_inner_product[torch]', 'knill_laflamme_inner_product(torch code words of ((4,2,2)), make_error_list(4,2))',
+             'knill_laflamme_inner_product(torch, first 2 code words of ((4,4,2)), make_error_list(4,2))',
+             lambda: numqi.qec.knill_laflamme_inner_product(tA, errs4), lambda: numqi.qec.knill_laflamme_inner_product(tB, errs4), kl_holds)
+        MA = numqi.qec.knill_laflamme_inner_product(cwA, errs4)
+        MB = MA + np.arange(MA.size).reshape(MA.shape) * (1 + 0.5j)
+        for kind in ('L2', 'L1'):
+            case(f'numqi.qec.knill_laflamme_loss[torch,{kind}]', f'knill_laflamme_loss(torch KL matrices of ((4,2,2)), {kind!r})', f'knill_laflamme_loss(torch, a perturbed array of the same shape, {kind!r})',
+                 lambda kind=kind: numqi.qec.knill_laflamme_loss(torch.tensor(MA), kind), lambda kind=kind: numqi.qec.knill_laflamme_loss(torch.tensor(MB), kind),
+                 lambda r: None if abs(float(r)) < 1e-12 else f'loss {float(r)} != 0')
+
+        def we_holds(r):
+            A, B = np.asarray(r[0]), np.asarray(r[1])
+            wa, wb = 2 ** 4 / 2 - 1, 2 ** 4 * 2 - 1
+            return None if abs(A.sum() - wa) < 1e-8 and abs(B.sum() - wb) < 1e-8 else f'sum A = {A.sum()}, sum B = {B.sum()} (want {wa}, {wb})'
+        case('numqi.qec.quantum_weight_enumerator', 'quantum_weight_enumerator(code words of ((4,2,2)))', 'quantum_weight_enumerator(first 2 code words of ((4,4,2)))',
+             lambda: numqi.qec.quantum_weight_enumerator(cwA), lambda: numqi.qec.quantum_weight_enumerator(cwB), we_holds)
+        s422 = get_generator(codes['code422']['fname'])()['stabilizer']
+        case('numqi.qec.check_stabilizer', 'check_stabilizer(stabilizer circuits of ((4,2,2)), its code words)', 'check_stabilizer(the same circuits, first 2 code words of ((4,4,2)))',
+             lambda: numqi.qec.check_stabilizer(s422, cwA), lambda: numqi.qec.check_stabilizer(s422, cwB),
+             lambda r: None if np.abs(np.asarray(r) - 1).max() < 1e-9 else 'check_stabilizer of ((4,2,2)) is not all ones')
+        q0, q1 = np.zeros(16, dtype=np.complex128), np.zeros(16, dtype=np.complex128)
+        q0[0] = 1; q1[1] = 1
+        case('Circuit.apply_state', 'generate_code422()["encode"].apply_state(|0000>)', 'generate_code422()["encode"].apply_state(|0001>)',
+             lambda: e422.apply_state(q0.copy()), lambda: e422.apply_state(q1.copy()),
+             lambda r: None if np.abs(np.asarray(r) - cwA[0]).max() < 1e-9 else 'not the first code word')
+        # VarQEC: two models of the same size, interleaved
+        try:
+            mA = numqi.qec.VarQEC(get_generator(codes['code422']['fname'])()['encode'], 2, errs4)
+            mB = numqi.qec.VarQEC(get_generator(codes['code442']['fname'])()['encode'], 2, errs4)
+            case('numqi.qec.VarQEC.get_code', 'VarQEC(generate_code422()["encode"], 2, make_error_list(4,2)).get_code()', 'VarQEC(generate_code442()["encode"], 2, make_error_list(4,2)).get_code()',
+                 lambda: mA.get_code(), lambda: mB.get_code(), cw_holds('code422', 2))
+            case('numqi.qec.VarQEC.forward', 'VarQEC(generate_code422()["encode"], 2, make_error_list(4,2))()', 'VarQEC(generate_code442()["encode"], 2, make_error_list(4,2))()   # second object',
+                 lambda: mA(), lambda: mB(), lambda r: None if abs(float(r)) < 1e-12 else f'loss {float(r)} != 0')
+        except Exception as ex:
+            ctx.fail('numqi.qec.VarQEC.get_code:result-overwritten-by-next-call', f'VarQEC construction raised {type(ex).__name__}: {ex}', dict(op='buffer-reuse', function='numqi.qec.VarQEC'))
+    if ok('code883') and ok('code8_64_2'):
+        e883 = get_generator(codes['code883']['fname'])()['encode']
+        e864 = get_generator(codes['code8_64_2']['fname'])()['encode']
+        case('numqi.qec.generate_code_np', 'generate_code_np(generate_code883()["encode"], 8)', 'generate_code_np(generate_code8_64_2()["encode"], 8)',
+             lambda: numqi.qec.generate_code_np(e883, 8), lambda: numqi.qec.generate_code_np(e864, 8), cw_holds('code883', 8))
+    if ok('code523'):
+        cw5 = codewords('code523')
+        def deg_holds(r):
+            ev = np.sort(np.asarray(r).real)
+            return None if ev.shape == (16,) and np.abs(ev - 1).max() < 1e-9 else f'eigenvalues of the Gram matrix of a non-degenerate code: {ev[:3]}…'
+        other = np.cos(np.arange(32) * 0.37) + 1j * np.sin(np.arange(32) * 0.91)
+        other = other / np.linalg.norm(other)
+        case('numqi.qec.degeneracy', 'degeneracy(code word 0 of ((5,2,3)))', 'degeneracy(v), v[j] = (cos(0.37 j) + i sin(0.91 j)) / norm, 32 entries',
+             lambda: numqi.qec.degeneracy(cw5[0]), lambda: numqi.qec.degeneracy(other), deg_holds)
+
+    # error sets: different parameters giving lists of the same length (15 = 3*5 = 3*2 + 9), same matrix shape for tag_full
+    def errlist_holds(n, d):
+        want = sorted(all_errors(n, d))
+        return lambda r: None if sorted(sparse_to_str(n, e, gate_name) for e in r) == want else f'not every Pauli of weight 1..{d - 1} on {n} qubits exactly once'
+    for (na, da), (nb, db) in (((2, 3), (5, 2)), ((5, 2), (2, 3)), ((3, 2), (3, 3)), ((4, 2), (4, 3))):
+        case('numqi.qec.make_error_list', f'make_error_list({na}, {da})', f'make_error_list({nb}, {db})',
+             lambda na=na, da=da: numqi.qec.make_error_list(na, da), lambda nb=nb, db=db: numqi.qec.make_error_list(nb, db), errlist_holds(na, da))
+
+    def full_holds(n, d):
+        want = [pauli_matrix(s_) for s_ in (sparse_to_str(n, e, gate_name) for e in numqi.qec.make_error_list(n, d))]
+        return lambda r: None if len(r) == len(want) and all(np.array_equal(np.asarray(a_), b_) for a_, b_ in zip(r, want)) else 'matrices are not the Kronecker products of the listed errors'
+    for (na, da), (nb, db) in (((2, 2), (2, 3)), ((2, 3), (2, 2)), ((3, 2), (3, 3))):
+        case('numqi.qec.make_error_list[tag_full]', f'make_error_list({na}, {da}, tag_full=True)', f'make_error_list({nb}, {db}, tag_full=True)',
+             lambda na=na, da=da: numqi.qec.make_error_list(na, da, tag_full=True), lambda nb=nb, db=db: numqi.qec.make_error_list(nb, db, tag_full=True), full_holds(na, da))
+    case('numqi.qec.make_error_list[op_list]', 'make_error_list(3, 3, op_list=[X, Z])', 'make_error_list(3, 3, op_list=[Y, Z])',
+         lambda: numqi.qec.make_error_list(3, 3, op_list=[numqi.gate.X, numqi.gate.Z]), lambda: numqi.qec.make_error_list(3, 3, op_list=[numqi.gate.Y, numqi.gate.Z]),
+         lambda r: None if sorted(sparse_to_str(3, e, gate_name) for e in r) == sorted(s_ for s_ in all_errors(3, 3) if 'Y' not in s_) else 'not the X/Z strings of weight 1..2')
+    from fractions import Fraction
+
+    def asym_holds(n, d, w):
+        wz = Fraction(w).limit_denominator(64)
+        want = sorted(s_ for s_ in (''.join(t_) for t_ in itertools.product('IXYZ', repeat=n))
+                      if s_ != 'I' * n and (s_.count('X') + s_.count('Y')) + wz * s_.count('Z') < d)
+        return lambda r: None if sorted(sparse_to_str(n, e, gate_name) for e in r) == want else f'not exactly the operators with nx+ny+{w}*nz<{d}, once each'
+    cand = [(3, 2, 1.0), (3, 2, 0.5), (3, 3, 2.0), (3, 3, 1.5), (3, 2, 0.25), (2, 3, 1.0), (2, 2, 0.5), (2, 3, 2.0)]
+    try:
+        lens = {p_: len(numqi.qec.make_asymmetric_error_set(*p_)) for p_ in cand}
+    except Exception:
+        lens = {}
+    apairs = [(a, b) for a in cand for b in cand if a != b and lens.get(a) == lens.get(b) and a[0] == b[0]][:4]
+    apairs += [((3, 2, 0.5), (3, 3, 2.0)), ((2, 3, 1.0), (2, 2, 0.5))]
+    for pa, pb in apairs:
+        case('numqi.qec.make_asymmetric_error_set', f'make_asymmetric_error_set{pa}', f'make_asymmetric_error_set{pb}',
+             lambda pa=pa: numqi.qec.make_asymmetric_error_set(*pa), lambda pb=pb: numqi.qec.make_asymmetric_error_set(*pb), asym_holds(*pa))
+
+    # parsers
+    def circ_is(s_):
+        def f(r):
+            try:
+                U = circuit_unitary(r, len(s_))
+            except Exception as ex:
+                return f'not a circuit on {len(s_)} qubits ({type(ex).__name__})'
+            return None if np.abs(U - pauli_matrix(s_)).max() < 1e-12 else f'circuit is not the operator {s_}'
+        return f
+    for sa, sb in (('XIYXX', 'IZZXZ'), ('IZZXZ', 'XIYXX'), ('XZ', 'ZY')):
+        case('numqi.qec.parse_simple_pauli', f'parse_simple_pauli({sa!r})', f'parse_simple_pauli({sb!r})',
+             lambda sa=sa: numqi.qec.parse_simple_pauli(sa), lambda sb=sb: numqi.qec.parse_simple_pauli(sb), circ_is(sa))
+    case('numqi.qec.parse_simple_pauli[indexed]', "parse_simple_pauli('X0Y2X3X4')", "parse_simple_pauli('Z1Z2X3Z4')",
+         lambda: numqi.qec.parse_simple_pauli('X0Y2X3X4'), lambda: numqi.qec.parse_simple_pauli('Z1Z2X3Z4'), circ_is('XIYXX'))
+    case('numqi.qec.parse_simple_pauli[tag_circuit=False]', "parse_simple_pauli('XIYXX', tag_circuit=False)", "parse_simple_pauli('IZZXZ', tag_circuit=False)",
+         lambda: numqi.qec.parse_simple_pauli('XIYXX', tag_circuit=False), lambda: numqi.qec.parse_simple_pauli('IZZXZ', tag_circuit=False),
+         lambda r: None if ''.join({q_: gate_name(g_) for g_, q_ in r}.get(i_, 'I') for i_ in range(5)) == 'XIYXX' else 'not the operator XIYXX')
+    case('numqi.qec.parse_str_qecc', "parse_str_qecc('((5,2,3))')", "parse_str_qecc('((4,2,2))')",
+         lambda: numqi.qec.parse_str_qecc('((5,2,3))'), lambda: numqi.qec.parse_str_qecc('((4,2,2))'),
+         lambda r: None if [int(r[k_]) for k_ in ('num_qubit', 'num_logical_dim', 'distance')] == [5, 2, 3] else f'not (5,2,3): {r}')
+    BUFFER_REUSE_FUNCTIONS[:] = covered
+    ctx.extra['buffer_reuse_functions'] = list(covered)
+
+
 def probe_weight_enumerator(ctx, c):
     import numqi
     name, n, K, d = c['name'], c['n'], c['K'], c['d']
@@ -2068,6 +2415,7 @@ def probe(ctx):
     guarded_section(ctx, 'asym-float', probe_asym_float, ctx)
     guarded_section(ctx, 'kl-loss', probe_kl_loss, ctx)
     guarded_section(ctx, 'aliasing-dtype', probe_aliasing_dtype, ctx)
+    guarded_section(ctx, 'buffer-reuse', probe_buffer_reuse, ctx)
     # second instantiation must translate to the same data as the first
     for _, lname in CODES:
         c = codes.get(lname)
